@@ -37,7 +37,7 @@ ASSUMPTIONS = [
 
 def run(ctx: Ctx):
   m = model(ctx)
-  for r in (r1, r2, r3, r4, r5, r7, r8, r9, r10, r11, r13):
+  for r in (r1, r2, r3, r4, r5, r7, r8, r9, r10, r11, r13, r15):
     ctx.guard(r, m)
   from mlmverif.props import c04
   from mlmverif.props import c13
@@ -161,6 +161,9 @@ def r2(ctx: Ctx, m):
     g = cfgm.cfg_of(fi.node)
     handlers = [h for h in g.nodes if h.kind == 'handler' and h.exc_types
                 and 'Exception' in h.exc_types]
+    # a try/except INSIDE a failure handler (guarding the decoration of the caught exception) is not a producer handler
+    inner = {id(x) for h in handlers for b in h.ast.body for x in ast.walk(b) if isinstance(x, ast.ExceptHandler)}
+    handlers = [h for h in handlers if id(h.ast) not in inner]
     if not handlers:
       ctx.fail(rule, fi, f'{name}: except Exception handler',
                'the enqueue loop no longer catches producer failures: the'
@@ -883,10 +886,64 @@ def r13(ctx: Ctx, m):
   ctx.floor(rule, 1, n)
 
 
+def r15(ctx: Ctx, m):
+  rule = 'R-C05-15'
+  ctx.rule(rule, '"if any producer\'s iterator raises, every consumer observes that exception (never an indefinite wait)": a'
+           ' failure handler of a producer records the failure and runs the stop routine BEFORE it calls anything on the'
+           ' caught object. `e.add_note(...)` (and any other method of `e`) runs code/attribute rules of a USER exception'
+           ' class — a frozen dataclass, __slots__, a restrictive __setattr__ raise from it — and the handler is then left'
+           ' by that second exception: with the decoration first nothing is recorded, the enqueuer is never counted as'
+           ' done and every consumer blocks. In each handler that stores `self._exception = <caught>` the store and the'
+           ' stop call precede every `<caught>.<method>(...)` call')
+  n = 0
+  for entry in _PRODUCER_ENTRIES:
+    fe = next((f for f in ctx.repo.all_functions() if f.name == entry and f.cls is not None
+               and any(f.cls.name == c.name for c in m.classes)), None)
+    if fe is None:
+      raise AnalysisError(f'{rule}: producer entry {entry} not found')
+    for h in ast.walk(fe.node):
+      if not (isinstance(h, ast.ExceptHandler) and h.name):
+        continue
+      def pos(pred):
+        for i, st in enumerate(h.body):
+          if any(pred(x) for x in ast.walk(st)):
+            return i
+        return None
+      i_store = pos(lambda x: isinstance(x, ast.Assign) and any(is_self_attr(t) and t.attr == '_exception' for t in x.targets)
+                    and isinstance(x.value, ast.Name) and x.value.id == h.name)
+      if i_store is None:
+        continue
+      n += 1
+      i_stop = pos(lambda x: isinstance(x, ast.Call) and isinstance(x.func, ast.Attribute) and is_self_attr(x.func)
+                   and x.func.attr in ('_stop_enqueue', 'maybe_stop'))
+      i_user = pos(lambda x: isinstance(x, ast.Call) and isinstance(x.func, ast.Attribute) and isinstance(x.func.value, ast.Name)
+                   and x.func.value.id == h.name)
+      what = f'{fe.qualname}: handler at line {h.lineno} records and stops before it touches the caught object'
+      if i_stop is None:
+        ctx.fail(rule, fe, what, f'the handler at line {h.lineno} stores the failure but never runs the stop routine', node=h)
+      elif i_user is not None and i_user < max(i_store, i_stop):
+        ctx.fail(rule, fe, what,
+                 f'`{unparse(h.body[i_user])[:60]}` runs before the failure is recorded and the queue stopped: when the exception'
+                 ' class refuses it (frozen dataclass, __slots__), the handler ends there — nothing is recorded and the'
+                 ' consumers of a queue without timeout wait for ever', node=h.body[i_user])
+      else:
+        ctx.ok(rule, fe, what, h)
+  ctx.floor(rule, 4, n)
+
+
 from mlmverif.selfcheck import B, OK  # noqa: E402
 
 _F = 'utils/iter_utils.py'
 VARIANTS = [
+    B('revert-note-before-the-failure-is-recorded', 'utils/iter_utils.py',
+      "        self._exception = e\n        self._stop_enqueue()\n        e.add_note(f'Exception during enqueueing \"{self.name}\".')\n        logging.exception('chainable: %s', f'\"{self.name}\" enqueue failed.')\n        raise e",
+      "        e.add_note(f'Exception during enqueueing \"{self.name}\".')\n        logging.exception('chainable: %s', f'\"{self.name}\" enqueue failed.')\n        self._exception = e\n        self._stop_enqueue()\n        raise e", 'R-C05-15'),
+    B('async-note-between-record-and-stop', 'utils/iter_utils.py',
+      "        self._exception = e\n        self._stop_enqueue()\n        e.add_note(f'Exception during async enqueueing {self.name}')\n",
+      "        self._exception = e\n        e.add_note(f'Exception during async enqueueing {self.name}')\n        self._stop_enqueue()\n", 'R-C05-15'),
+    OK('note-guarded-after-the-record', 'utils/iter_utils.py',
+       "        self._exception = e\n        self._stop_enqueue()\n        e.add_note(f'Exception during enqueueing \"{self.name}\".')\n",
+       "        self._exception = e\n        self._stop_enqueue()\n        try:\n          e.add_note(f'Exception during enqueueing \"{self.name}\".')\n        except Exception:  # pylint: disable=broad-exception-caught\n          pass\n"),
     B('link-tests-before-it-registers', 'utils/iter_utils.py',
       "    self._stopped_with.append(other)\n    if self.enqueue_done:\n      # Already over, e.g., failed on the very first element.\n      other.maybe_stop()\n",
       "    if self.enqueue_done:\n      # Already over, e.g., failed on the very first element.\n      other.maybe_stop()\n      return\n    self._stopped_with.append(other)\n", 'R-C05-14'),
@@ -897,7 +954,7 @@ VARIANTS = [
       "          if e is self._exception:\n            # The enqueuer failed with this very error: not an empty buffer.\n            raise\n          logging.debug(\n              'chainable: %s', f'\"{self.name}\" dequeue empty, waiting'",
       "          logging.debug(\n              'chainable: %s', f'\"{self.name}\" dequeue empty, waiting'", 'R-C05-11'),
     B('revert-async-open-outside-the-handler', _F,
-      "    self._start_enqueue()\n    try:\n      if isinstance(iterator, Awaitable):\n        iterator = await iterator\n      if not isinstance(iterator, AsyncIterator):\n        iterator = aiter(iterator)\n    except Exception as e:  # pylint: disable=broad-exception-caught\n      # Same as enqueue_from_iterator: the iterable can fail before yielding\n      # anything, the consumers have to see this as any other enqueue failure.\n      e.add_note(f'Exception during async enqueueing {self.name}')\n      logging.exception('chainable: %s', f'{self.name} enqueue failed.')\n      self._exception = e\n      self._stop_enqueue()\n      raise e\n",
+      "    self._start_enqueue()\n    try:\n      if isinstance(iterator, Awaitable):\n        iterator = await iterator\n      if not isinstance(iterator, AsyncIterator):\n        iterator = aiter(iterator)\n    except Exception as e:  # pylint: disable=broad-exception-caught\n      # Same as enqueue_from_iterator: the iterable can fail before yielding\n      # anything, the consumers have to see this as any other enqueue failure.\n      self._exception = e\n      self._stop_enqueue()\n      e.add_note(f'Exception during async enqueueing {self.name}')\n      logging.exception('chainable: %s', f'{self.name} enqueue failed.')\n      raise e\n",
       "    if isinstance(iterator, Awaitable):\n      iterator = await iterator\n    if not isinstance(iterator, AsyncIterator):\n      iterator = aiter(iterator)\n    self._start_enqueue()\n", 'R-C05-10'),
     B('revert-sticky-stop-flag', _F,
       '      self._stop_requested = True\n      self._enqueue_stop = self._enqueue_start = self._max_enqueuer',
@@ -927,12 +984,12 @@ VARIANTS = [
       '    with self._enqueue_lock:\n      self._enqueue_lock.notify_all()\n    with self._dequeue_lock:\n      if not is_stop_iteration(exc):',
       '    with self._dequeue_lock:\n      if not is_stop_iteration(exc):', 'R-C05-5'),
     B('store-after-stop', _F,
-      '        self._exception = e\n        self._stop_enqueue()\n        raise e\n\n\nclass _ThreadSafeIterator',
-      '        self._stop_enqueue()\n        self._exception = e\n        raise e\n\n\nclass _ThreadSafeIterator',
+      '        self._exception = e\n        self._stop_enqueue()\n        e.add_note(f\'Exception during enqueueing "{self.name}".\')',
+      '        self._stop_enqueue()\n        self._exception = e\n        e.add_note(f\'Exception during enqueueing "{self.name}".\')',
       'R-C05-2'),
     B('exception-not-recorded', _F,
-      '        self._exception = e\n        self._stop_enqueue()\n        raise e\n\n\nclass _ThreadSafeIterator',
-      '        self._stop_enqueue()\n        raise e\n\n\nclass _ThreadSafeIterator',
+      '        self._exception = e\n        self._stop_enqueue()\n        e.add_note(f\'Exception during enqueueing "{self.name}".\')',
+      '        self._stop_enqueue()\n        e.add_note(f\'Exception during enqueueing "{self.name}".\')',
       'R-C05-2'),
     B('put-no-recheck-before-wait', _F,
       '          if self.enqueue_done:\n            break\n          if self._enqueue_lock.wait(timeout=self.timeout):',
@@ -953,11 +1010,11 @@ VARIANTS = [
       '    while not self.enqueue_done:\n      try:\n        value = await asyncio.wait_for(anext(iterator), self.timeout)',
       '    while True:\n      try:\n        value = await asyncio.wait_for(anext(iterator), self.timeout)', 'R-C05-3'),
     B('revert-iter-failure-recorded', _F,
-      '    self._start_enqueue()\n    try:\n      iterator = iter(iterator)\n    except Exception as e:  # pylint: disable=broad-exception-caught\n      # The iterable can fail before yielding anything, e.g., when opening its\n      # source: the consumers have to see this as any other enqueue failure.\n      e.add_note(f\'Exception during enqueueing "{self.name}".\')\n      logging.exception(\'chainable: %s\', f\'"{self.name}" enqueue failed.\')\n      self._exception = e\n      self._stop_enqueue()\n      raise e\n',
+      '    self._start_enqueue()\n    try:\n      iterator = iter(iterator)\n    except Exception as e:  # pylint: disable=broad-exception-caught\n      # The iterable can fail before yielding anything, e.g., when opening its\n      # source: the consumers have to see this as any other enqueue failure.\n      # Records the failure first: decorating it can fail for an exception\n      # class that refuses new attributes.\n      self._exception = e\n      self._stop_enqueue()\n      e.add_note(f\'Exception during enqueueing "{self.name}".\')\n      logging.exception(\'chainable: %s\', f\'"{self.name}" enqueue failed.\')\n      raise e\n',
       '    iterator = iter(iterator)\n    self._start_enqueue()\n', 'R-C05-10'),
     B('iter-failure-handler-forgets-to-record', _F,
-      '      logging.exception(\'chainable: %s\', f\'"{self.name}" enqueue failed.\')\n      self._exception = e\n      self._stop_enqueue()\n      raise e\n    while not',
-      '      logging.exception(\'chainable: %s\', f\'"{self.name}" enqueue failed.\')\n      self._stop_enqueue()\n      raise e\n    while not', 'R-C05-10'),
+      '      self._exception = e\n      self._stop_enqueue()\n      e.add_note(f\'Exception during enqueueing "{self.name}".\')',
+      '      self._stop_enqueue()\n      e.add_note(f\'Exception during enqueueing "{self.name}".\')', 'R-C05-10'),
     B('wait-without-timeout', _F,
       '          if self._enqueue_lock.wait(timeout=self.timeout):\n            continue',
       '          if self._enqueue_lock.wait():\n            continue', 'R-C05-4'),
@@ -981,8 +1038,8 @@ VARIANTS = [
       '      self.maybe_stop()\n      raise StopIteration()\n    if not self._cache:',
       '      raise StopIteration()\n    if not self._cache:', 'R-C05-5'),
     OK('stop-helper-renamed-local', _F,
-       '        self._exception = e\n        self._stop_enqueue()\n        raise e\n\n\nclass _ThreadSafeIterator',
-       '        self._exception = e\n        logging.info(\'stopping\')\n        self._stop_enqueue()\n        raise e\n\n\nclass _ThreadSafeIterator'),
+       '        self._exception = e\n        self._stop_enqueue()\n        e.add_note(f\'Exception during enqueueing "{self.name}".\')',
+       '        self._exception = e\n        logging.info(\'stopping\')\n        self._stop_enqueue()\n        e.add_note(f\'Exception during enqueueing "{self.name}".\')'),
     OK('timeout-message-changed', _F,
        "raise TimeoutError(f'Dequeue timeout={self.timeout}secs.') from e",
        "raise TimeoutError(f'dequeue timed out after {self.timeout}s') from e"),
